@@ -180,8 +180,11 @@ hwloc_internal_memattrs_dup(struct hwloc_topology *new, struct hwloc_topology *o
     nimattr->iflags &= ~HWLOC_IMATTR_FLAG_STATIC_NAME;
     nimattr->iflags &= ~HWLOC_IMATTR_FLAG_CACHE_VALID; /* cache will need refresh */
 
-    if (!oimattr->nr_targets)
+    if (!oimattr->nr_targets) {
+      /* the memcpy above copied old's targets pointer (non-NULL if all targets were dropped by a refresh) */
+      nimattr->targets = NULL;
       continue;
+    }
 
     nimattr->targets = hwloc_tma_malloc(tma, oimattr->nr_targets * sizeof(*nimattr->targets));
     if (!nimattr->targets) {
